@@ -15,14 +15,20 @@ PROP_FILES = ["props/C05.v"]
 
 FAMILIES_WITH_THEOREM = [
     "MPEG audio frame header (all versions x layers x bitrate/rate indices x padding x mode; frame length)",
+    "MPEG Layer III Xing/Info header with and without LAME extension (all 32-bit frame/byte counts, 12-bit delay/padding, all flag "
+    "combinations; version string LAME3.99r) and VBRI header; tag offset for every Layer III header (finite)",
     "FLAC STREAMINFO (load and write)", "WAVE fmt chunk", "AIFF COMM chunk (integer rates < 2^53 in 80-bit extended)",
     "DSF", "TrueAudio", "WavPack (first block, known total)", "Monkey's Audio (>= 3.98 header)", "OptimFROG",
     "Musepack SV7", "Musepack SV8 (SH/RG packets, varint sizes)", "Ogg Vorbis id header", "Ogg Opus OpusHead",
-    "Ogg Speex header", "Ogg Theora id header", "Ogg FLAC mapping header"]
+    "Ogg Speex header", "Ogg Theora id header", "Ogg FLAC mapping header",
+    "AC-3 syncframe (bsid <= 10): PARTIAL -- channel modes 2/0, 3/0, 2/1, 2/2 proved; 1+1, 1/0, 3/1, 3/2 REFUTED "
+    "(C05_ac3_lfe_position_refuted: lfeon read at a fixed bit position)",
+    "E-AC-3 syncframe (finite sub-domain: all stream types, rate codes, block codes, channel modes, six frame sizes)"]
 FAMILIES_WITHOUT_THEOREM = [
-    "MPEG Xing/Info/LAME and VBRI headers (length from frame counts)", "Musepack SV4-SV6 (modelled, correspondence only)",
-    "Monkey's Audio < 3.98 (modelled, correspondence only)", "WavPack block walk for unknown totals (modelled, correspondence only)",
-    "DSDIFF", "TAK", "MP4 mdhd/stsd/esds", "ASF", "AAC ADTS/ADIF", "AC-3/E-AC-3", "SMF"]
+    "other LAME version strings than LAME3.99r (modelled: LAMEHeader.parse_version; correspondence only)",
+    "Musepack SV4-SV6 (modelled, correspondence only)", "Monkey's Audio < 3.98 (modelled, correspondence only)",
+    "WavPack block walk for unknown totals (modelled, correspondence only)",
+    "DSDIFF", "TAK", "MP4 mdhd/stsd/esds", "ASF", "AAC ADTS/ADIF", "SMF"]
 
 TRUSTED = [
     "binary64: the harness turns the model's exact rationals (numerator, denominator) into the float the implementation's "
@@ -1115,7 +1121,84 @@ class OggFlac(OggFmt):
                 "length": fdiv(total, rate) if total else fdiv(g, rate), "packets": hp}
 
 
-GENERIC = [Flac(), Wave(), Aiff(), Dsf(), Tta(), WavPack(), Ape(), Ofr(), Mpc7(), Mpc8(), Vorbis(), Opus(), Speex(), Theora(), OggFlac()]
+AC3_RATES = [48000, 44100, 32000]
+AC3_KBPS = [32, 40, 48, 56, 64, 80, 96, 112, 128, 160, 192, 224, 256, 320, 384, 448, 512, 576, 640]
+AC3_NFCHANS = [2, 1, 2, 3, 3, 4, 4, 5]
+
+
+class RangedFmt(Generic):
+    """fields given as (name, lo, hi) inclusive ranges (small enumerations)"""
+    ranges = []
+
+    @property
+    def fields(self):
+        return [(n, 0, lo) for n, lo, hi in self.ranges]
+
+    def params_lattice(self, rng):
+        for i, (n, lo, hi) in enumerate(self.ranges):
+            for v in range(lo, hi + 1):
+                p = [rng.randint(a, b) for _, a, b in self.ranges]
+                p[i] = v
+                yield self.fix(p)
+
+    def params_random(self, rng):
+        return self.fix([rng.randint(a, b) for _, a, b in self.ranges])
+
+    def impl(self, file):
+        import mutagen.ac3
+        i = mutagen.ac3.AC3(io.BytesIO(file)).info
+        return {"codec": i.codec, "sample_rate": i.sample_rate, "bitrate": i.bitrate, "channels": i.channels, "length": i.length}
+
+    KEYS = ["codec", "sample_rate", "bitrate", "channels", "ln", "ld"]
+
+    def ref_from_model(self, ctx, md, file):
+        r = {"codec": ["ac-3", "ec-3"][md["codec"]], "sample_rate": md["sample_rate"], "bitrate": md["bitrate"], "channels": md["channels"]}
+        r["length"] = None if md["ln"] == -1 else 8.0 * (md["ln"] // 8) / md["ld"]
+        return r
+
+
+class Ac3(RangedFmt):
+    name = mfmt = "ac3"
+    slug = "ac3-syncframe"
+    ranges = [("fscod", 0, 2), ("frmsizecod", 0, 37), ("bsid", 0, 10), ("bsmod", 0, 7), ("acmod", 0, 7), ("cmixlev", 0, 2),
+              ("surmixlev", 0, 2), ("dsurmod", 0, 2), ("lfeon", 0, 1), ("dialnorm", 0, 31)]
+
+    def spec(self, p, file):
+        fscod, frm, bsid, bsmod, acmod, cm, sm, ds, lfe, dn = p
+        shift = max(bsid, 8) - 8
+        return {"codec": "ac-3", "sample_rate": AC3_RATES[fscod] >> shift, "bitrate": (AC3_KBPS[frm >> 1] * 1000) >> shift,
+                "channels": AC3_NFCHANS[acmod] + lfe}
+
+    def annotate(self, p, bad):
+        names = sorted(b.split(":")[0] for b in bad)
+        if names == ["channels"] and p[4] in (0, 1, 5, 7):
+            return {"known_shape": "ac3-lfeon-read-at-fixed-bit-position", "acmod": p[4]}
+        return {}
+
+
+class Eac3(RangedFmt):
+    name, mfmt = "eac3", "ac3"
+    slug = "eac3-syncframe"
+    ranges = [("strmtyp", 0, 2), ("substreamid", 0, 7), ("frmsiz", 3, 2047), ("fscod", 0, 3), ("fscod2", 0, 2), ("numblkscod", 0, 3),
+              ("acmod", 0, 7), ("lfeon", 0, 1), ("bsid", 11, 16), ("dialnorm", 0, 31)]
+
+    def params_lattice(self, rng):
+        for i, (n, lo, hi) in enumerate(self.ranges):
+            vals = range(lo, hi + 1) if hi - lo < 40 else [lo, lo + 1, 4, 100, 767, 1023, 1024, hi - 1, hi]
+            for v in vals:
+                p = [rng.randint(a, b) for _, a, b in self.ranges]
+                p[i] = v
+                yield p
+
+    def spec(self, p, file):
+        st, sid, frmsiz, fscod, fscod2, nb, acmod, lfe, bsid, dn = p
+        fs = (frmsiz + 1) * 2
+        rate = AC3_RATES[fscod2] // 2 if fscod == 3 else AC3_RATES[fscod]
+        blocks = 6 if fscod == 3 else [1, 2, 3, 6][nb]
+        return {"codec": "ec-3", "sample_rate": rate, "bitrate": 8 * fs * rate // (blocks * 256), "channels": AC3_NFCHANS[acmod] + lfe}
+
+
+GENERIC = [Flac(), Wave(), Aiff(), Dsf(), Tta(), WavPack(), Ape(), Ofr(), Mpc7(), Mpc8(), Vorbis(), Opus(), Speex(), Theora(), OggFlac(), Ac3(), Eac3()]
 BYNAME = {f.name: f for f in GENERIC}
 
 
@@ -1157,8 +1240,9 @@ def generic_case(ctx, F, p, tag):
             if not isinstance(got, float) or (exact == 0 and got != 0) or (exact != 0 and abs(Fraction(got) - exact) > abs(exact) * Fraction(1, 2 ** 51)):
                 bad.append("%s: impl=%r exact=%s" % (k, got, exact))
         if bad:
-            ctx.violation("oracle", "%s: reported attributes differ from the header: %s" % (F.name, ", ".join(sorted(b.split(":")[0] for b in bad))),
-                          {"class": F.slug + "-mismatch", "fmt": F.name, "params": [str(x) for x in p], "detail": bad})
+            data = {"class": F.slug + "-mismatch", "fmt": F.name, "params": [str(x) for x in p], "detail": bad}
+            data.update(getattr(F, "annotate", lambda p, bad: {})(p, bad))
+            ctx.violation("oracle", "%s: reported attributes differ from the header: %s" % (F.name, ", ".join(sorted(b.split(":")[0] for b in bad))), data)
             ok = False
     ctx.case((F.name, tuple(p)), {"fmt": F.name, "params": [str(x) for x in p], "impl": {k: (v.hex() if isinstance(v, float) else v) for k, v in impl.items()}
                                    if st == "ok" else impl} if ctx.evaluations % 499 == 0 else None)
@@ -1330,6 +1414,8 @@ def sample_cases(ctx):
                     return None
                 return (fm, first[0][3][0], g)
             plan.append((n, fm, data, cls, mi))
+        elif ext in ("ac3", "eac3"):
+            plan.append((n, "ac3", data, None, lambda data=data: ("ac3", data, None)))
         elif ext == "mp3":
             plan.append((n, "mpeg", data, None, None))
     for n, fm, data, cls, mi in plan:
@@ -1429,6 +1515,11 @@ def sample_mpeg(ctx, n, data):
 def vm_crosscheck(ctx):
     rng = ctx.rng
     cases, keys = [], []
+    F3 = BYNAME["ac3"]
+    for _ in range(8):
+        p = F3.params_random(rng)
+        cases.append("decode_ac3 (build_ac3_frame (mkAc3 %s))" % " ".join(str(x) for x in p))
+        keys.append(("ac3", p))
     dom = list(mpeg_domain())
     for _ in range(24):
         p = rng.choice(dom)
@@ -1450,7 +1541,7 @@ def vm_crosscheck(ctx):
         cases.append("decode_mpc (build_mpc8 %s)" % " ".join(str(x) for x in p))
         keys.append(("mpc8", p))
     pre = ("From Coq Require Import ZArith List. Import ListNotations. Require Import Base.Py Model.InfoBase Model.InfoMpeg Model.InfoFlac "
-           "Model.InfoIff Model.InfoSimple Model.InfoMpc. Open Scope Z_scope.")
+           "Model.InfoIff Model.InfoSimple Model.InfoMpc Model.InfoAc3. Open Scope Z_scope.")
     res, log = vm_shard("c05", pre, cases)
     if res is None or len(res) != len(cases):
         ctx.disagree("c05.vm_shard", "vm_compute shard failed to run: %s" % (log,), {})
@@ -1459,7 +1550,7 @@ def vm_crosscheck(ctx):
     for (fm, p), r in zip(keys, res):
         ctx.vm_cases += 1
         b = mbuild(ctx, fm, *p)
-        mst, mv = mdecode(ctx, {"mpc8": "mpc"}.get(fm, fm), b)
+        mst, mv = mdecode(ctx, {"mpc8": "mpc"}.get(fm, fm), b, None)
         m = re.match(r"Ok \[(.*)\]$", r.replace("%Z", "").strip())
         if m:
             got = ("ok", [int(x) for x in m.group(1).split(";") if x.strip()])
